@@ -16,7 +16,7 @@ import (
 // silent: display names of addresses, trailing white space of a body, Reply-To / In-Reply-To.
 type spec struct {
 	Base  int  `json:"base"`
-	HV    int  `json:"hashed_variation"`   // 0 none, 1 +Cc, 2 body text differs, 3 text/html instead of text/plain, 4 subject differs, 5 To address differs
+	HV    int  `json:"hashed_variation"`   // 0 none, 1 +Cc, 2 body text differs, 3 text/html instead of text/plain, 4 subject differs, 5 To address differs, 6/7 two To addresses that differ in the first one only, 8 two Cc addresses (first one differs from 1's)
 	Multi bool `json:"multipart"`          // multipart/mixed with a text part and an attachment
 	UV    int  `json:"unhashed_variation"` // 0 none, 1 X-Variant header, 2 Date differs, 3 Message-Id added, 4 text body base64, 5 text body quoted-printable, 6 other multipart boundary (Multi only)
 
@@ -27,7 +27,7 @@ type spec struct {
 }
 
 const (
-	nHV = 6
+	nHV = 9
 	nUV = 7
 )
 
@@ -59,14 +59,24 @@ func build(s spec) string {
 
 	sb.WriteString("From: Alice <alice@example.com>\r\n")
 
-	if s.HV == 5 {
+	switch s.HV {
+	case 5:
 		sb.WriteString("To: Bob <bob2@example.com>\r\n")
-	} else {
+	case 6:
+		// several recipients: 6 and 7 differ in the first one only and share the last one
+		sb.WriteString("To: Ann <ann@example.com>, Bob <bob@example.com>\r\n")
+	case 7:
+		sb.WriteString("To: Dan <dan@example.com>, Bob <bob@example.com>\r\n")
+	default:
 		sb.WriteString("To: Bob <bob@example.com>\r\n")
 	}
 
 	if s.HV == 1 {
 		sb.WriteString("Cc: Carol <carol@example.com>\r\n")
+	}
+
+	if s.HV == 8 {
+		sb.WriteString("Cc: Erin <erin@example.com>, Carol <carol@example.com>\r\n")
 	}
 
 	if s.HV == 4 {
